@@ -14,15 +14,22 @@ Two halves.
     ambiguity (see ref.cost_facts) and on the same idempotence.
 
 (2) Solvers, engine E1 (section X).  Real NM / Powell / DE / DE2 solvers on costs
-    with a flat direction (``flat``: coordinate 0 ignored) and a tied pair
-    (``c11_tied``), with ``Or/And`` trees of ChangeOverGeneration, CollapseAt and
-    CollapseAs as termination, driven by every op sequence to a depth over
-    {Step, StepTo(stop), Collapse, Solve} plus structured long histories.  A spy on
-    ``solver.Collapse`` records what each collapse applied, the termination state
-    before/after and the position in the cost's call log.  Oracle: every later
-    logged cost call and the final solution satisfy the applied relation exactly;
-    ``state(termination)`` masks grow by exactly what was applied; nothing already
-    applied is reported again; nothing raises; Solve returns inside the horizon.
+    with a flat direction (``flat``: coordinate 0 ignored), a tied pair
+    (``c11_tied``) and a (2,2) product measure (``c11_measure22``, generation
+    monitor built with ``npts``), with ``Or/And`` trees of ChangeOverGeneration,
+    CollapseAt, CollapseAs, CollapseWeight and CollapsePosition (initial masks in
+    every accepted format) as termination, driven by every op sequence to a depth
+    over {Step, StepTo(stop), Collapse, Solve} plus structured long histories.  A
+    spy on ``solver.Collapse`` records what each collapse applied, the termination
+    (state, And/Or skeleton) before/after and the position in the cost's call log.
+    Oracle: every later logged cost call and the final solution satisfy the applied
+    relation exactly (x[i] == target; x[i] constant for target=None; x[j] == x[i];
+    weight == 0.0; pos_i == pos_j); ``state(termination)`` masks grow by exactly
+    what was applied and nothing else about the termination changes; nothing
+    already applied or masked is reported again (Collapse() results and stop
+    messages); nothing raises; Solve returns inside the evaluation horizon and a
+    horizon on the number of Collapse() calls.  D: the same execution twice gives
+    bit-identical logs (ownership of the randomness).
 """
 import itertools, traceback, json
 import numpy as np
@@ -169,7 +176,7 @@ def shard_at(item):
                         T.count('traces')
                         at_case(T, mon, hist, target, tol, gens, mask, base)
     T.hist('A:shards(dim,length,mask_level)', (dim, length, level))
-    if hist is not None and not prefix:
+    if hist is not None and (dim, length) == (2, 3):
         T.sample({'detector': 'collapse_at', 'hist': [list(x) for x in hist], 'target': targets[-1], 'tolerance': TOLS[-1],
                   'generations': 2, 'mask': [0]}, 1)
     return T
@@ -282,7 +289,7 @@ def shard_as(item):
                         T.count('traces')
                         as_case(T, mon, hist, offset, tol, gens, mask, base)
     T.hist('S:shards(dim,length,mask_level)', (dim, length, level))
-    if hist is not None and not prefix:
+    if hist is not None and (dim, length) == (2, 3):
         T.sample({'detector': 'collapse_as', 'hist': [list(x) for x in hist], 'offset': True, 'tolerance': TOLS[-1],
                   'generations': 2, 'mask': [[1, 0]]}, 1)
     return T
@@ -447,7 +454,7 @@ def shard_measure(item):
                     measure_case(T, which, mon, hist, npts, tol, gens, fmt, items, base)
     T.hist('%s:shards(npts,length,mask_level,background)' % sec, (npts, length, level, background))
     T.hist('%s:mask_formats' % sec, sorted(set(f or 'None' for f, s in masks)))
-    if hist is not None and not prefix:
+    if hist is not None and (npts, length, background) == ((2, 2), 1, 1.0):
         T.sample({'detector': 'collapse_weight' if which == 'w' else 'collapse_position', 'npts': list(npts),
                   'hist': [list(x) for x in hist], 'tolerance': TOLS[-1], 'generations': 2,
                   'format': masks[-1][0], 'mask_items': masks[-1][1]}, 1)
@@ -536,6 +543,8 @@ TERMS = {
     'as': ['Or', COG, ['As', False, T4, 2, None]],
     'as_wide': ['Or', COG, ['As', False, 0.5, 1, None]],
     'as_masked': ['Or', COG, ['As', False, 0.5, 1, [[1, 0], 2]]],
+    'as_g2': ['Or', COG, ['As', False, 0.125, 2, None]],
+    'as_chain': ['Or', COG, ['As', False, 0.375, 1, None]],
     'as_offset': ['Or', COG, ['As', True, T4, 2, None]],
     'at0_as': ['Or', COG, ['At', 0.0, T4, 2, None], ['As', False, T4, 2, None]],
     'and': ['Or', COG, ['And', ['At', None, T6, 2, None], ['As', False, T4, 2, None]]],
@@ -559,6 +568,7 @@ MTERMS = {
     'p_where1': ['Or', COG8, ['P', T4, 2, ['where', [[0, [0, 1]]]]]],
 }
 TERMS.update(MTERMS)
+T4TERMS = ['as_wide', 'as_g2', 'at0_as', 'as', 'and', 'no_stop', 'mixed_tol']     # the terminations used with the 4-parameter setup
 QUICK_MTERMS = ['w', 'p', 'wp', 'w_dictmask', 'w_set', 'p_where1']
 QUICK_TERMS = ['at_none', 'at_none_g1', 'at_none_masked', 'at_0', 'at_list', 'as_wide', 'as_masked', 'as_offset',
                'at0_as', 'and', 'mixed_tol', 'no_stop']
@@ -566,6 +576,13 @@ SETUPS = {
     'flat3': {'cost': 'flat', 'dim': 3, 'x0': [2.0 ** -5, 0.5, 0.75]},
     'tied3': {'cost': 'c11_tied', 'dim': 3, 'x0': [2.0 ** -5, 0.5, 0.75]},
     'flat2': {'cost': 'flat', 'dim': 2, 'x0': [2.0 ** -5, 0.5]},
+    # four coordinates pulled together: every pair can collapse, in groups that join later
+    'tied4': {'cost': 'c11_tied4', 'dim': 4, 'x0': [2.0 ** -5, 0.25, 0.375, 0.46875]},
+    # a chain 0-1-3-2 of neighbours 0.3125 apart: the pairs (0,1), (2,3) form two groups that the pair (1,3) joins later
+    'chain4': {'cost': 'c11_tied4', 'dim': 4, 'x0': [0.0, 0.3125, 0.9375, 0.625]},
+    # neighbours 0.3125 apart in the order 0=1, 4, 2, (3 far away): the collapsing pairs are (0,1), (2,4), (0,4), (1,4) -
+    # two groups that a later pair joins (found by a search over all 5-point geometries on a grid)
+    'chain5': {'cost': 'c11_tied4', 'dim': 5, 'x0': [0.0, 0.0, 0.625, 1.25, 0.3125]},
     # a (2,2) product measure: weight (0,1) starts at 0, the positions of measure 1 start 2**-7 apart
     'meas22': {'cost': 'c11_measure22', 'dim': 8, 'npts': [2, 2], 'x0': [1.0, 0.0, 0.75, 0.25, 0.5, 0.5, 0.5, 0.5 + 2.0 ** -7]},
 }
@@ -625,7 +642,8 @@ class Judge(object):
             elif kind == 'CollapseAs':
                 i, j = it
                 off = bool(kw.get('offset'))
-                self.rels.append({'rel': 'as_offset' if off else 'as', 'i': i, 'j': j, 'start': ev.nlog})
+                self.rels.append({'rel': 'as_offset' if off else 'as', 'i': i, 'j': j, 'start': ev.nlog,
+                                  'gap_then': abs(ev.best[j] - ev.best[i]), 'seen': False})
                 self.kinds.append('as_offset' if off else 'as')
             elif kind == 'CollapseWeight':
                 m, k = it
@@ -640,9 +658,13 @@ class Judge(object):
                 self.kinds.append('position')
 
     def _overlap(self, r):
-        """does another applied collapse touch a parameter of this one? (classification only)"""
+        """does an applied collapse of the other family (fix a parameter / tie two parameters) touch a
+        parameter of this one?  (classification only: two collapses whose constraints compete)"""
+        def fam(q):
+            return 'fix' if (q['rel'].startswith('at_') or q['rel'] == 'weight') else 'tie'
         mine = set(v for v in (r.get('i'), r.get('j')) if v is not None)
-        return any(o is not r and mine & set(v for v in (o.get('i'), o.get('j')) if v is not None) for o in self.rels)
+        return any(o is not r and fam(o) != fam(r) and mine & set(v for v in (o.get('i'), o.get('j')) if v is not None)
+                   for o in self.rels)
 
     def _holds(self, r, x, T=None):
         """None = holds, else text"""
@@ -658,6 +680,14 @@ class Judge(object):
         elif k == 'weight':
             if x[r['i']] != 0.0:
                 return 'weight x[%d] = %r, fixed at 0.0 by the collapse' % (r['i'], x[r['i']])
+        elif k == 'as_offset':
+            if T is not None and not r['seen']:
+                # recorded, not judged: the statement names 'equal to its partner' only
+                r['seen'] = True
+                gap = abs(x[r['j']] - x[r['i']])
+                T.hist('X:as_offset_true:gap_after_collapse(not_judged)',
+                       'the gap seen at the collapse' if gap == r['gap_then'] else
+                       ('a multiple of 1.0 (the flag used as a number)' if gap in (1.0, 2.0, 3.0) and r['gap_then'] != gap else 'other'))
         elif k in ('as', 'position'):
             if x[r['i']] != x[r['j']]:
                 return 'x[%d] = %r differs from its partner x[%d] = %r' % (r['j'], x[r['j']], r['i'], x[r['i']])
@@ -687,10 +717,9 @@ class Judge(object):
                 self.stats['collapses'] += 1
                 T.hist('X:collapse_applied_by', 'Solve loop' if ev.in_solve else 'manual Collapse()')
             # masks grow by exactly what was applied, nothing else changes
-            if set(ev.after) != set(ev.before) or ev.others_after != ev.others_before:
+            if set(ev.after) != set(ev.before) or ev.others_after != ev.others_before or ev.shape_after != ev.shape_before:
                 out.append((dict(base, clause='termination_changed'),
-                            'Collapse() changed the set of conditions: before %s + %s, after %s + %s'
-                            % (sorted(k[0] for k in ev.before), ev.others_before, sorted(k[0] for k in ev.after), ev.others_after)))
+                            'Collapse() changed the conditions or their And/Or structure: before %r, after %r' % (ev.shape_before, ev.shape_after)))
             for ident, (kind, kw, mask) in ev.before.items():
                 if ident not in ev.after:
                     continue
@@ -753,8 +782,12 @@ class Judge(object):
                 T.hist('X:final_solution(%s,%s)' % (cfg['solver'], r['rel']), 'violates' if why else 'satisfies')
                 if why is not None and r['rel'] not in seen:
                     seen.add(r['rel'])
-                    out.append((dict(base, clause='final_solution', relation=r['rel'], overlap=self._overlap(r)),
-                                'stopped with %r; bestSolution = %r: %s [driver: %s]' % ((msg or '')[:60], list(best), why, driver)))
+                    # observed from the call log: was this best point last evaluated before the collapse was applied?
+                    stale = (not any(l[0] == best for l in log[r['start']:])) and any(l[0] == best for l in log[:r['start']])
+                    out.append((dict(base, clause='final_solution', relation=r['rel'], overlap=self._overlap(r), best_predates_collapse=stale),
+                                'stopped with %r; bestSolution = %r: %s%s [driver: %s]'
+                                % ((msg or '')[:60], list(best), why,
+                                   ' (this point was evaluated before the collapse and never after it)' if stale else '', driver)))
         # ---- abnormal ends
         if abnormal:
             if outcome[0] == 'HORIZON':
@@ -850,7 +883,8 @@ def shard_solver(item):
     else:
         for ops in structured():
             run_trace(cfg, ops, T, judged)
-        T.sample({'cfg': {k: v for k, v in cfg.items() if k != 'term11'}, 'termination': cfg['term11'], 'ops': structured()[2]}, 1)
+        if (cfg['solver'], cfg['setup'], cfg['term']) in (('NM', 'flat3', 'at0_as'), ('DE2', 'meas22', 'wp')):
+            T.sample({'cfg': {k: v for k, v in cfg.items() if k != 'term11'}, 'termination': cfg['term11'], 'ops': structured()[2]}, 1)
     return T
 
 
@@ -942,8 +976,9 @@ def solver_items(ctx):
     depth = 4 if th else 3
     cfgs = []
     for solver in solverlab.SOLVERS:
-        for setup in (sorted(SETUPS) if th else ['flat3', 'tied3', 'meas22']):
-            for term in (mterms if setup == 'meas22' else pterms):
+        for setup in (sorted(SETUPS) if th else ['flat3', 'tied3', 'tied4', 'chain4', 'chain5', 'meas22']):
+            for term in (mterms if setup == 'meas22' else ((T4TERMS if th else T4TERMS[:3]) if setup == 'tied4' else
+                                                           (['as_chain'] if setup in ('chain4', 'chain5') else pterms))):
                 if SETUPS[setup]['dim'] == 2 and term in ('at_list', 'as_masked'):
                     continue
                 if solver.startswith('DE'):
@@ -997,7 +1032,8 @@ def run(ctx):
                               'layouts': '1 param: ascending and descending order of recording; 2 params: x_k = (k, pi(k)) for every permutation pi'},
         },
         'solvers': {'solvers': list(solverlab.SOLVERS), 'setups': SETUPS,
-                    'terminations': {k: TERMS[k] for k in (sorted(TERMS) if ctx.thorough else QUICK_TERMS + QUICK_MTERMS)},
+                    'terminations': {k: TERMS[k] for k in (sorted(TERMS) if ctx.thorough else sorted(set(QUICK_TERMS + QUICK_MTERMS + T4TERMS[:3] + ['as_chain'])))},
+                    'terminations_of_setup': {'meas22': 'w*, p*', 'chain4, chain5': ['as_chain'], 'tied4': T4TERMS if ctx.thorough else T4TERMS[:3], 'others': 'at*, as*, and*, nested_or, mixed_tol, no_stop'},
                     'ops': OPS, 'general_depth': {'parameter setups': depth, 'measure setup': depth - 1},
                     'structured_histories': structured(), 'configs': len(cfgs),
                     'seeds': sorted(set(c['seed'] for c in cfgs)), 'DE_populations': 'NP=4; single start point and (odd seeds) random in [-1,2]^n',
@@ -1006,18 +1042,22 @@ def run(ctx):
     }
     ctx.rule = ("detectors: a case is one (history, tolerance, window, target/offset, mask) tuple evaluated on a real Monitor; ALL histories of "
                 "each stated length over {0,1e-5,1}^dim are used. distinct_nontrivial counts distinct (window content, setting) classes in which "
-                "some but not all candidates collapse. solvers: a case is one (configuration, op sequence); ALL sequences of the stated depth over "
-                "the 4-op alphabet plus the structured histories; non-trivial = at least one collapse was applied and at least one later cost call "
-                "was checked against it. states = distinct (window content, settings) classes + distinct solver snapshots.")
+                "some but not all candidates collapse (collapse_cost: sample sets with non-constant cost). solvers: a case is one (configuration, "
+                "op sequence); ALL sequences of the stated depth over the 4-op alphabet plus the structured histories; non-trivial = at least one "
+                "collapse was applied and at least one later cost call was checked against it. states = distinct (window content, settings) classes "
+                "+ distinct solver snapshots (call count, best solution, masks).")
     ctx.assumptions = [
         "the look-back window of N generations is the last N monitor entries (all of them when fewer exist)",
         "collapse_position's own docstring leaves the formula blank: max over the window of |pos_i - pos_j| <= tolerance is used "
         "(CollapsePosition's docstring, with the non-strict comparison the other three detectors document)",
+        "the empty mask in 'where' format is spelled () - ((),()) is rejected by collapse_position and is not treated as an accepted format",
         "collapse_cost is judged only where its docstring decides: no run of N samples at/above the limit -> no bounds; a run of N strictly "
-        "above -> bounds (clip=False); samples strictly below the limit stay inside the reported intervals (clip=False); own output as mask -> {}",
-        "CollapseAt(target=None) fixes a parameter 'at its target' = at one constant value from the collapse on (which value is not judged)",
-        "CollapseAs(offset=True): the statement names only 'equal to its partner'; the imposed relation is recorded, not judged",
+        "above -> bounds (clip=False); samples strictly below the limit stay inside the reported intervals (clip=False); own output as mask -> {}. "
+        "With clip=True the detector can cut away samples below the limit (even the minimum): counted in a histogram, not judged",
+        "CollapseAt(target=None) fixes a parameter 'at its target' = at one constant value from the collapse on (which value is recorded, not judged)",
+        "CollapseAs(offset=True): the statement names only 'equal to its partner'; the imposed relation (x[j] = x[i] + True) is recorded, not judged",
         "the final solution is judged when Solve returns or a Step reports a stop that is not a pending collapse",
+        "violation signatures carry overlap=True when an applied collapse of the other family (fix a parameter / tie a pair) touches the same parameter (competing constraints)",
         "ensemble Collapse is documented as not implemented: out of scope",
     ]
     ctx.pmap(_dispatch, items)
